@@ -1674,7 +1674,18 @@ impl<Config: endpoint::Config> connection::Trait for ConnectionImpl<Config> {
             //# Once an endpoint has successfully processed a
             //# Handshake packet from the peer, it can consider the peer address to
             //# have been validated.
+            let was_amplification_limited = self.path_manager[path_id].at_amplification_limit();
             self.path_manager[path_id].on_handshake_packet();
+            if was_amplification_limited && self.path_manager[path_id].is_active() {
+                // Validating the address lifts the amplification limit. The PTO timer is not
+                // armed while the path is limited, so it needs to be re-armed now, as it is
+                // when a datagram unblocks the path.
+                self.space_manager.on_amplification_unblocked(
+                    &self.path_manager,
+                    random_generator,
+                    datagram.timestamp,
+                );
+            }
 
             // try to move the crypto state machine forward
             self.update_crypto_state(
